@@ -335,7 +335,14 @@ func runC30(c *an.Ctx) {
 							}
 						}
 					}
-					c.Add(flag != nil, "R1", "handleTags:kept-only-if-not-deleted", oc, "an old tag is kept only when the deleted flag is false", "edge dominance")
+					// the same test through the library: slices.Contains(req.DeleteTags, key) == false
+					viaLib := false
+					for _, f := range necessaryFacts(ht, oc) {
+						if strings.HasPrefix(f.L, "slices.Contains") && strings.HasSuffix(f.L, "(local:tagsRequest.DeleteTags,"+rng+"#1)") && f.Op == "==" && f.R == "c:false" {
+							viaLib = true
+						}
+					}
+					c.Add(flag != nil || viaLib, "R1", "handleTags:kept-only-if-not-deleted", oc, "an old tag is kept only when the deleted flag is false", "edge dominance")
 					if flag != nil {
 						c.Add(delFlagShape(flag, rng+"#1"), "R1", "handleTags:deleted-flag-shape", flag, "the deleted flag starts false for each tag and is only ever raised by 'a delete key equals this tag's key' (never lowered), scanning the whole delete list", "phi operand analysis")
 					}
@@ -596,7 +603,14 @@ func runC31(c *an.Ctx) {
 				ok = isMk && an.Path(sts[1].Val) == "append(local:Config."+f+",$0."+f+")" && an.Path(sts[2].Val) == "append(local:Config."+f+",$1."+f+")" &&
 					an.Dominates(sts[0], sts[1]) && an.Dominates(sts[1], sts[2])
 			}
-			c.Add(ok, "R2", "class:concat:"+f, mc, f+": a's entries then b's entries, appended to a freshly made slice", "store sequence")
+			got := ""
+			if len(sts) == 1 {
+				// the same three steps as one expression (or through a one-line helper)
+				got = an.Path(sts[0].Val)
+				ok = strings.HasPrefix(got, "append(append(make:slice(") && strings.HasSuffix(got, ",$0."+f+"),$1."+f+")")
+				got = " (stores " + short(got) + ")"
+			}
+			c.Add(ok, "R2", "class:concat:"+f, mc, f+": a's entries then b's entries, appended to a freshly made slice"+got, "store sequence")
 		case *types.Map:
 			sts := stores[f]
 			ok := false
@@ -614,6 +628,37 @@ func runC31(c *an.Ctx) {
 							ca = in
 						case "$1." + f:
 							cb = in
+						}
+					}
+					// the same copy written as a range loop: mk[k] = v for every k, v of the source, unconditionally
+					if mu, okM := in.(*ssa.MapUpdate); okM && mu.Map == ssa.Value(mk) {
+						k, okK := mu.Key.(*ssa.Extract)
+						v, okV := mu.Value.(*ssa.Extract)
+						if !okK || !okV || k.Index != 1 || v.Index != 2 || k.Tuple != v.Tuple {
+							return
+						}
+						nx, okN := k.Tuple.(*ssa.Next)
+						if !okN {
+							return
+						}
+						rg, okR := nx.Iter.(*ssa.Range)
+						if !okR {
+							return
+						}
+						outer := map[string]bool{}
+						for _, fct := range necessaryFacts(mc, rg) {
+							outer[fct.String()] = true
+						}
+						for _, fct := range necessaryFacts(mc, mu) {
+							if !outer[fct.String()] && !strings.Contains(fct.L, "next(range(") {
+								return // a condition inside the loop: not a plain copy
+							}
+						}
+						switch an.Path(rg.X) {
+						case "$0." + f:
+							ca = rg
+						case "$1." + f:
+							cb = rg
 						}
 					}
 				})
@@ -680,7 +725,7 @@ func runC31(c *an.Ctx) {
 			}
 		}
 	})
-	c.Floor("R3", "write sites examined in MergeConfig", nW, 50)
+	c.Floor("R3", "write sites examined in MergeConfig", nW, 40)
 	// the result is a copy
 	okCopy := false
 	an.Instrs(mc, func(in ssa.Instruction) {
